@@ -10,6 +10,7 @@ VERIF = os.path.dirname(os.path.dirname(os.path.abspath(__file__)))
 REPO = os.environ.get("VERIF_REPO", "/repo")
 BUILD = os.path.join(VERIF, "build")
 KANI_LIB = os.path.expanduser("~/.kani/kani-0.68.0/library/kani/kani_lib.c")
+MODELS_C = os.path.join(VERIF, "harness", "common", "models.c")    # range/domain models of libm functions Kani has no model for (acos, asin)
 NIN = 64
 JOBS = int(os.environ.get("VERIF_JOBS", "14"))
 
@@ -209,6 +210,11 @@ path = "src/bin/replay.rs"
 [dependencies]
 glam = {{ path = "{REPO}", features = [{feats}] }}
 {extra_deps}
+[features]
+default = ["std"]
+std = []
+libm = []
+
 [workspace]
 
 [profile.dev]
@@ -261,7 +267,7 @@ def kani_codegen(cdir, cfg, tag, log, slot=None):
 def link(meta, workdir):
     """Kani's own link steps, done by hand so CBMC can be driven directly"""
     out = os.path.join(workdir, meta["pretty_name"] + ".goto")
-    steps = [["goto-cc", meta["goto_file"], KANI_LIB, "-o", out],
+    steps = [["goto-cc", meta["goto_file"], KANI_LIB, MODELS_C, "-o", out],
              ["goto-cc", out, "--function", meta["mangled_name"], "-o", out],
              ["goto-instrument", "--drop-unused-functions", out, out],
              ["goto-instrument", "--ensure-one-backedge-per-target", out, out]]
